@@ -600,7 +600,8 @@ Definition json_array (sep : str) (hint : option Z) (elems : list str) : str :=
   let '(body, st) := json_elems sep (if empty then JEmpty else JFirst) elems in
   91 :: (if empty then [93] else []) ++ body ++ match st with JEmpty => [] | _ => [93] end.
 
-(* value/mod.rs: serializer.serialize_seq(o.enumerator_len()): the exact number of items of a sized
-   object, None for an iterable that does not know its length *)
+(* value/mod.rs (after the fix: commit of known/C16.json): the object is enumerated once; the hint is Some n when the iterator's
+   size_hint is exact (lower = upper = n, which the engine's sized enumerators guarantee to be the number
+   of items), None otherwise *)
 Definition seq_len_hint (sized : bool) (elems : list str) : option Z :=
   if sized then Some (lenZ elems) else None.
